@@ -97,16 +97,8 @@ def _install_logging_stubs():
     INSTALLED["stubs"].append("time.sleep -> no-op")
     _override(time.time, _frozen_time)
     INSTALLED["stubs"].append("time.time -> frozen clock 1000.0 (only feeds log text and the RTU inter-frame bookkeeping; harnesses that reason about deadlines install their own clock)")
-    import pymodbus.utilities as U
-    def _hexlify_packets(packet):
-        # transaction.execute() tests the truthiness of this text to decide whether to reset the framer,
-        # so emptiness must be preserved
-        if not packet:
-            return ""
-        return "<hex>"
-    _override(U.hexlify_packets, _hexlify_packets)
-    # modules that did `from pymodbus.utilities import hexlify_packets` hold the same function object
-    INSTALLED["stubs"].append("pymodbus.utilities.hexlify_packets -> '' for empty input, placeholder text otherwise (its text is only logged; its emptiness is used by execute())")
+    # pymodbus.utilities.hexlify_packets is NOT stubbed: transaction.execute() uses the emptiness of its result to decide
+    # whether to reset the framer, so the real function runs; only hex() of a symbolic value is a placeholder
 
 
 
@@ -138,10 +130,40 @@ def semantic_text(x):
     return x
 
 
+_SPEC = None
+
+
+def _percent_type_errors(fmt, other):
+    """the TypeErrors CPython's % operator raises from the SHAPE of its operands (argument count, a non-number for a
+    numeric conversion): they do not depend on symbolic values, and code under test may trip over them (a log line
+    formatting a Deferred with %d), so the placeholder must not swallow them"""
+    global _SPEC
+    import re
+    import numbers
+    if _SPEC is None:
+        _SPEC = re.compile(r"%(\((?P<key>[^)]*)\))?[#0\- +]*(\*|\d+)?(\.(\*|\d+))?[hlL]?(?P<conv>[diouxXeEfFgGcrsa%])")
+    specs = [m for m in _SPEC.finditer(fmt) if m.group("conv") != "%"]
+    if any(m.group("key") is not None for m in specs) or any("*" in m.group(0) for m in specs):
+        return
+    args = other if isinstance(other, tuple) else (other,)
+    if len(args) < len(specs):
+        raise TypeError("not enough arguments for format string")
+    if len(args) > len(specs) and not (len(specs) == 0 and isinstance(other, dict)):
+        raise TypeError("not all arguments converted during string formatting")
+    for m, a in zip(specs, args):
+        c = m.group("conv")
+        if c in "diouxXeEfFgG":
+            ok = isinstance(a, (numbers.Number, _bl.CrossHairValue)) or hasattr(type(a), "__int__") or hasattr(type(a), "__index__") or hasattr(type(a), "__float__")
+            if not ok:
+                raise TypeError("%%%s format: a real number is required, not %s" % (c, type(a).__name__))
+
+
 def _percent(self, other):
     with NoTracing():
         concrete_fmt = type(self) is str
         sym = _is_symbolic_nt(other)
+        if concrete_fmt and sym and self not in SEMANTIC_FORMATS:
+            _percent_type_errors(self, other)
     if concrete_fmt and sym:
         if self in SEMANTIC_FORMATS:
             r = _hex2_format(self, other)
